@@ -14,6 +14,28 @@ import wpull.util
 _logger = logging.getLogger(__name__)
 
 
+def cookie_domain_ok(domain, domain_specified, host):
+    '''Return whether a cookie may be exchanged with the host.
+
+    Args:
+        domain (str): The domain of the cookie as kept by the cookie jar.
+        domain_specified (bool): Whether the cookie was set with a
+            Domain attribute.
+        host (str): The hostname of the request.
+
+    This follows RFC 6265 Sections 5.3 and 5.4.
+    '''
+    domain = domain.lower()
+    host = host.lower()
+
+    if not domain_specified:
+        # Host-only cookie: it goes back to the host that set it and to
+        # no other. (The cookie jar appends ".local" to dot-less hosts.)
+        return domain == host or domain == host + '.local'
+
+    return True
+
+
 class DeFactoCookiePolicy(DefaultCookiePolicy):
     '''Cookie policy that limits the content and length of the cookie.
 
@@ -54,6 +76,15 @@ class DeFactoCookiePolicy(DefaultCookiePolicy):
             return False
 
         return True
+
+    def return_ok_domain(self, cookie, request):
+        if not DefaultCookiePolicy.return_ok_domain(self, cookie, request):
+            return False
+
+        return cookie_domain_ok(
+            cookie.domain, cookie.domain_specified,
+            http.cookiejar.request_host(request)
+        )
 
     def count_cookies(self, domain):
         '''Return the number of cookies for the given domain.'''
